@@ -132,8 +132,8 @@ CLAIMS = {
     note="The finding is recorded, not repaired (capping `values` contradicts C07).",
     technique="TLA+ size model evaluated by TLC; TLC trace validation of every datagram sent by real nodes"),
  "C01": dict(
-    category="exploration",
-    text="2..9 REAL serving nodes that all know each other run on the simulated network (virtual clock, per-datagram latency below 1 s, IPv4/IPv6, random and adversarially clustered ids, announce port set or not); announcing searches and searches by every other node in random order with gaps from seconds to more than 24 h. TLC checks the recording against spec/trace/NodeTrace.tla: from the announces each node ACKNOWLEDGED (its own reply, checked by the server rules) it derives when every other node's search must, and must no longer, yield the announcer's contact (IP with announce port or UDP source port).",
+    category="model_checking",
+    text="Design level: mc/MC_E2E.tla composes the token-store and peer-store mechanisms of three serving nodes (announce = get_peers then announce_peer with the token, search = get_peers to every other node) and TLC checks over every interleaving and a time alphabet from seconds to 25 h that a search finds every other announcer within 24 h of its last announce and none after. Binding: 2..9 REAL serving nodes that all know each other run on the simulated network (virtual clock, per-datagram latency below 1 s, IPv4/IPv6, random and adversarially clustered ids, announce port set or not); announcing searches and searches by every other node in random order with gaps from seconds to more than 24 h. TLC checks the recording against spec/trace/NodeTrace.tla: from the announces each node ACKNOWLEDGED (its own reply, checked by the server rules) it derives when every other node's search must, and must no longer, yield the announcer's contact (IP with announce port or UDP source port).",
     design_ref='DESIGN.md §5 C01',
     note="Long runs are recorded in projection mode (only get_peers/announce_peer steps and search API lines). 'Found' is demanded for searches that start at least 1 s after the announcing search ended (its announce datagrams travel for less than 1 s).",
     technique='TLA+ spec + TLC model checking (where a design-level model exists); TLC trace validation of recorded executions of real nodes'),
